@@ -18,9 +18,11 @@ static void print_list (PList *l) {
 
 /* one-shot allocation failure (ops insf / lappf / lpref): the next p_malloc of the library returns NULL */
 static int fail_next;
-static ppointer f_malloc (psize n) { if (fail_next) { fail_next = 0; return NULL; } return malloc (n); }
+static long live_blocks;   /* blocks the library holds (op `newf` prints what a creation call left allocated) */
+static int fail_at;    /* op `newf K`: the K-th allocation from now on fails */
+static ppointer f_malloc (psize n) { if (fail_next) { fail_next = 0; return NULL; } if (fail_at && --fail_at == 0) return NULL; ++live_blocks; return malloc (n); }
 static ppointer f_realloc (ppointer p, psize n) { return realloc (p, n); }
-static void f_free (ppointer p) { free (p); }
+static void f_free (ppointer p) { if (p) --live_blocks; free (p); }
 /* the library reports the failed allocation with a P_ERROR line on stdout: not part of the protocol */
 #include <unistd.h>
 #include <fcntl.h>
@@ -75,6 +77,17 @@ int main (void) {
 		else if (!strcmp (op, "insf") && n == 3) { mute (); p_hash_table_insert (t, (ppointer) (uintptr_t) a, (ppointer) (uintptr_t) b); unmute (); puts ("ok"); }
 		else if (!strcmp (op, "lappf") && n == 2) { mute (); l = p_list_append (l, (ppointer) (uintptr_t) a); unmute (); print_list (l); }
 		else if (!strcmp (op, "lpref") && n == 2) { mute (); l = p_list_prepend (l, (ppointer) (uintptr_t) a); unmute (); print_list (l); }
+		else if (!strcmp (op, "newf") && n == 2) {
+			/* p_hash_table_new whose K-th allocation fails (handle, bucket array): NULL, nothing kept; K = 0 or > 2: a third
+			 * table that lives for this op only */
+			mute (); fail_next = 0; fail_at = (int) a;
+			long before = live_blocks;
+			PHashTable *t3 = p_hash_table_new ();
+			long held = live_blocks - before;
+			fail_at = 0; unmute ();
+			if (t3) { p_hash_table_insert (t3, (ppointer) (uintptr_t) 5, (ppointer) (uintptr_t) 6); p_hash_table_free (t3); }
+			printf ("%s held=%ld after-free=%ld\n", t3 ? "ok" : "null", held, live_blocks - before);
+		}
 		else if (!strcmp (op, "lbvf") && n == 2) { PList *k = p_hash_table_lookup_by_value (t, (pconstpointer) (uintptr_t) a, value_cmp); print_list (k); p_list_free (k); }
 		else if (!strcmp (op, "leach") && n == 1) {
 			nseen = 0;
